@@ -128,6 +128,9 @@ def analyse(facts, with_socket=False, extra_setup=None):
         for s in bl["st"]:
             if s["k"] == "assign" and not s["p"]["p"]:
                 assigned.add(s["p"]["l"])
+            # a local mutated through a reference taken inside the loop is loop-carried as well
+            if s["k"] == "assign" and s["r"]["k"] == "ref" and s["r"].get("mut") and not any(pr["k"] == "deref" for pr in s["r"]["p"]["p"]):
+                assigned.add(s["r"]["p"]["l"])
         t = bl["term"]
         if t["k"] == "call" and not t["dest"]["p"]:
             assigned.add(t["dest"]["l"])
